@@ -57,3 +57,105 @@ pub(crate) fn contains_rec(_this: &DepsGraph, key: &OwnedDirEntry) -> bool {
     }
 }
 
+
+// ================================================================================================
+// The REAL graph code over the map stub with 2-3 slots (obligations declare `map_cap`): bounded in graph size.
+// ================================================================================================
+fn key(id: &str) -> OwnedKey {
+    OwnedKey::new_with(id.into(), tid(0))
+}
+fn file(id: &str) -> Dependency {
+    Dependency::File(id.into(), "x".into())
+}
+fn deps_of(v: Vec<Dependency>) -> crate::hot_reloading::records::Dependencies {
+    crate::hot_reloading::records::amv_h::deps_of(v)
+}
+fn rdeps_has(g: &DepsGraph, node: &Dependency, who: &Dependency) -> bool {
+    match g.0.get(node) {
+        Some(n) => n.rdeps.contains(who),
+        None => false,
+    }
+}
+fn node_deps_has(g: &DepsGraph, node: &Dependency, what: &Dependency) -> bool {
+    match g.0.get(node) {
+        Some(n) => n.deps.iter().any(|d| d == what),
+        None => false,
+    }
+}
+macro_rules! graph_instances {
+    ($( $name:ident => $body:expr; )*) => { $(
+        #[kani::proof]
+        #[kani::unwind(5)]
+        pub(crate) fn $name() { $body }
+    )* };
+}
+
+/// G1 — insert registers the asset with its dependency set and the reverse edges (graph of 2 nodes)
+fn g1_insert() {
+    let mut g = DepsGraph::new();
+    let a = Dependency::Asset(key("a"));
+    g.insert_asset(key("a"), deps_of(vec![file("f")]), Type::of::<A>());
+    assert!(g.contains(&OwnedDirEntry::File("f".into(), "x".into())), "C06 an entry some asset recorded is known to the graph");
+    assert!(!g.contains(&OwnedDirEntry::File("g".into(), "x".into())) && !g.contains(&OwnedDirEntry::Directory("f".into())), "C06 entries nobody recorded are unknown (their events are dropped)");
+    assert!(rdeps_has(&g, &file("f"), &a), "C05 the recorded entry points back to the asset");
+    assert!(node_deps_has(&g, &a, &file("f")), "C05 the asset's node holds its dependency set");
+    match g.0.get(&a) { Some(n) => assert!(n.typ.is_some(), "C05 a registered asset can be reloaded"), None => assert!(false) }
+    match g.0.get(&file("f")) { Some(n) => assert!(n.typ.is_none(), "C10 a file node is never reloaded itself"), None => assert!(false) }
+    std::mem::forget(g);
+}
+/// G1 — re-inserting with another set rewires: new reverse edge added, old one removed (dependency sets are re-learned)
+fn g1_rewire() {
+    let mut g = DepsGraph::new();
+    let a = Dependency::Asset(key("a"));
+    g.insert_asset(key("a"), deps_of(vec![file("f")]), Type::of::<A>());
+    g.insert_asset(key("a"), deps_of(vec![file("g")]), Type::of::<A>());
+    assert!(rdeps_has(&g, &file("g"), &a), "C05 after a reload that reads something new, a change of the newly read entry reaches the asset");
+    assert!(!rdeps_has(&g, &file("f"), &a), "C06 after a reload that no longer reads an entry, that entry no longer reaches the asset");
+    assert!(node_deps_has(&g, &a, &file("g")) && !node_deps_has(&g, &a, &file("f")), "C05 dependency sets are re-learned at every reload");
+    std::mem::forget(g);
+}
+/// G2 — sort from a changed file lists the asset once; from an unknown entry lists nothing
+fn g2_sort_one() {
+    let mut g = DepsGraph::new();
+    g.insert_asset(key("a"), deps_of(vec![file("f")]), Type::of::<A>());
+    let (ef, eu) = (OwnedDirEntry::File("f".into(), "x".into()), OwnedDirEntry::File("u".into(), "x".into()));
+    let mut it = g.topological_sort_from([&ef, &eu, &ef]).into_iter();
+    assert!(it.len() == 1, "C06 each affected asset appears once in the update list, also for duplicated and unknown events");
+    match it.next() { Some(k) => assert!(&*k.id == "a"), None => assert!(false) }
+    let it2 = g.topological_sort_from([&eu]).into_iter();
+    assert!(it2.len() == 0, "C06 an event for an entry nobody recorded reloads nothing");
+    std::mem::forget(g);
+}
+/// G2 — chain file -> a -> b: dependencies are refreshed before their dependents (graph of 3 nodes)
+fn g2_chain_order() {
+    let mut g = DepsGraph::new();
+    g.insert_asset(key("b"), deps_of(vec![Dependency::Asset(key("a"))]), Type::of::<A>());
+    g.insert_asset(key("a"), deps_of(vec![file("f")]), Type::of::<A>());
+    let ef = OwnedDirEntry::File("f".into(), "x".into());
+    let mut it = g.topological_sort_from([&ef]).into_iter();
+    assert!(it.len() == 2, "C05 a change reaches the transitive dependents");
+    match (it.next(), it.next()) {
+        (Some(k1), Some(k2)) => assert!(&*k1.id == "a" && &*k2.id == "b", "C05 dependencies are refreshed before their dependents"),
+        _ => assert!(false),
+    }
+    std::mem::forget(g);
+}
+/// C08 — two assets that look each other up (cyclic reverse dependencies): the visit terminates and lists each once
+fn g2_cycle_terminates() {
+    let mut g = DepsGraph::new();
+    g.insert_asset(key("a"), deps_of(vec![Dependency::Asset(key("b"))]), Type::of::<A>());
+    g.insert_asset(key("b"), deps_of(vec![Dependency::Asset(key("a"))]), Type::of::<A>());
+    let ea = key("a");
+    let mut sd = TopologicalSortData { visited: crate::utils::HashSet::new(), list: Vec::new() };
+    g.visit(&mut sd, BorrowedDependency::Asset(&ea));
+    assert!(sd.list.len() == 2, "C08 assets that look each other up are each listed once");
+    std::mem::forget(sd);
+    std::mem::forget(g);
+}
+graph_instances! {
+    c05_g1_insert => g1_insert();
+    c05_g1_rewire => g1_rewire();
+    c05_g2_sort_one => g2_sort_one();
+    c05_g2_chain_order => g2_chain_order();
+    c08_g2_cycle_terminates => g2_cycle_terminates();
+}
